@@ -1314,9 +1314,19 @@ def run_offsets(ctx, case):
             for row in fh:
                 a, b = row.strip().split(";")
                 table.append([int(a), int(b)])
+        # a table entry that is not a byte offset: text-mode tell() after a line that ends in a bare "\r" at the end of the file
+        # returns an opaque cookie (decoder flags above bit 64).  One specific history (the last byte of the file is a bare CR and
+        # the number of lines is a multiple of 50 000); judged under a class of its own so that nothing else hides behind it.
+        cookie = any(off >= 1 << 63 for _, off in table)
+        if cookie:
+            ctx.count("offsets:table-entry-is-a-tell-cookie")
+            ctx.fail("offset-table-holds-tell-cookie-at-bare-cr-eof",
+                     "prepare_file_offset_table stored a text-mode tell() cookie as a byte offset; skip_lines through this table cannot seek",
+                     {"lines": len(lines), "last_byte": data[-1:].hex(), "offset_of_line": len(data)}, {"table": [[a, str(b)] for a, b in table]})
+            table = []  # the table file itself is removed in the branch below that handles unusable tables
         # the pass as the code runs it: text mode, universal newlines (model: textLines)
         mt = ctx.model("bulklines", "texttable", {"bytes": hexdata, "every": 50000})
-        refused = bare_cr and read != len(lines)  # the preparator would refuse the file
+        refused = (bare_cr and read != len(lines)) or cookie  # the preparator would refuse the file / the table is unusable (judged above)
         if (mt["r"]["lines"] != read and (refused or not bare_cr)) or mt["r"]["nobarecr"] != (not bare_cr) or mt["r"]["nl_lines"] != len(lines):
             ctx.diff("text-mode line count", {k: mt["r"][k] for k in ("lines", "nobarecr", "nl_lines")},
                      {"lines": read, "nobarecr": not bare_cr, "nl_lines": len(lines)})
